@@ -1,11 +1,16 @@
 /-
   C06 — every managed object is finalised exactly once, all memory returned by teardown.
 
-  Property theorems only; lemmas are in CelloProofs/Lemmas/Life{Basic,Fin,Inv,Safe}.lean.
+  Property theorems only; lemmas are in CelloProofs/Lemmas/Life{Basic,Fin,Inv,Safe,Null}.lean.
   Model: Cello/Lifecycle.lean (`step`: new/new_root/new_raw, alloc/alloc_root/alloc_raw, del/del_root/del_raw,
   dealloc(destruct(·)), collections with any marked set and any slot order, stop/start, teardown, destructors that `del`
   what they own *and destructors that allocate* (`Op.dtor`: each `new` inside a destructor goes through `GC_Set` and may
-  run a nested collection on the same pending list); `finalise`: destructor cascades; ledger of `fin a` / `free a`).
+  run a nested collection on the same pending list), mark phases that an exception leaves with bits set
+  (`Op.markAbort`), `del(NULL)` by the program (`Op.delNull`) and by destructors (`Op.nulldel`);
+  `finalise`: destructor cascades; ledger of `fin a` / `free a`).
+  The last two territories were defects of the tree that are repaired now (fixes d8f0c4f and d3e4e44): they are part of
+  the history language of *every* theorem below, with no hypothesis; the code before each fix is kept as an explicit OLD
+  variant of the model (`Cfg.staleMarks`, `Cfg.nullUnguarded`) and refuted on the former witnesses.
 
   Safety ("no managed object is finalised twice, none is released without being finalised") is proved for *every*
   well-formed history: `C06_no_double`, `C06_ledger_only_grows`, `C06_registered_inert` have no other hypothesis.
@@ -34,14 +39,17 @@
 -/
 import CelloProofs.Lemmas.LifeInv
 import CelloProofs.Lemmas.LifeSafe
+import CelloProofs.Lemmas.LifeNull
 import Cello.LifecycleSrc
 
 namespace Cello.Life
 
 /-- **the code that exists is the code the theorems are about**: the translator reads from src/GC.c whether
     `GC_Rem_Ptr` finalises a pending object it strikes off and whether `GC_Sweep` clears a pending slot before finalising
-    it (the two halves of fix 5c00ad8), and from GC.c/Alloc.c/Pointer.c/Thread.c the routes the model mirrors (`del_by`,
-    `Box_Del`, the stop checks, `GC_Del`, `Cello_Exit`, `Thread_Init_Run`, the `mitems` formula).  A source change that
+    it (the two halves of fix 5c00ad8), whether `GC_Mark` and `GC_Del` start with `GC_Unmark` (the two halves of fix
+    d8f0c4f), whether `GC_Rem_Ptr` returns at once for NULL (fix d3e4e44), and from GC.c/Alloc.c/Pointer.c/Thread.c the
+    routes the model mirrors (`del_by`, `Box_Del`, the stop checks, `GC_Del`, `Cello_Exit`, `Thread_Init_Run`, the `mitems`
+    formula, the sweep clearing the mark bits of its survivors).  A source change that
     flips any of them makes this theorem fail to build. -/
 theorem C06_current_source : sourceCfg = Cfg.current ∧ sourceShapeAsModelled = true := by
   constructor <;> decide
@@ -411,7 +419,7 @@ example :
     finalises it a second time, while its first destructor is still running -/
 theorem C06_lateclear_ring_refuted :
     let ops : List Op := [.new 1 .std [] [1] [], .new 2 .std [1] [1, 2] [], .own 1 [2], .collect [] [1, 2]]
-    (run ⟨true, false, false, false⟩ St.init ops).log = [.fin 1, .fin 2, .fin 1, .free 1, .free 2, .free 1] := by
+    (run { Cfg.current with sweepNullsSlot := false } St.init ops).log = [.fin 1, .fin 2, .fin 1, .free 1, .free 2, .free 1] := by
   decide
 
 /-! ### known finding F23 and the pre-fix code -/
@@ -467,7 +475,136 @@ theorem C06_prefix_refuted :
     before finalising it, an object swept *before* its owner is finalised twice -/
 theorem C06_halffix_refuted :
     let ops : List Op := [.new 1 .std [] [1] [], .new 2 .std [1] [1, 2] [], .collect [] [1, 2]]
-    (run ⟨true, false, false, false⟩ St.init ops).log = [.fin 1, .free 1, .fin 2, .fin 1, .free 1, .free 2] := by
+    (run { Cfg.current with sweepNullsSlot := false } St.init ops).log = [.fin 1, .free 1, .fin 2, .fin 1, .free 1, .free 2] := by
+  decide
+
+/-! ### fix d8f0c4f: a mark phase that an exception leaves (`GC_Unmark` at the start of `GC_Mark` and in `GC_Del`)
+
+  `Op.markAbort marks` = a `GC_Mark` that marked `marks` and was then left by an exception (a `Mark` instance that
+  throws): no `GC_Sweep` follows, the bits stay set in the registry (`St.marked`).  Before the fix the next mark phase
+  started from those bits and the teardown sweep read them: an object whose bit was set and that the program had dropped
+  since was kept by the next collection and *left behind at teardown* (known finding KF-C01-stale-marks seen from C06).
+  `Op.markAbort` is an ordinary operation of the history language: `C06_no_double`, `C06_exactly_once(_windows/_alloc)`,
+  `C06_teardown_classification`, `C06_collect_respects_marks`, … hold for histories that contain it anywhere, for any bits.
+  The theorems below say it directly for the two places where the bits used to be read. -/
+
+/-- **C06, teardown does not see an abandoned mark phase**: for every history (no hypothesis), whatever bits the mark
+    phase left set, the collector state after teardown — ledger, registry, everything — is the one reached without it. -/
+theorem C06_teardown_ignores_abandoned_mark (ops : List Op) (stale order : List Addr) :
+    final (ops ++ [.markAbort stale, .teardown order]) = final (ops ++ [.teardown order]) := by
+  unfold final; rw [run_append, run_append]; rfl
+
+/-- the same for the next collection (forced, or the threshold collection of a registration: both are `GC_Mark;
+    GC_Sweep`): the mark phase starts from clear bits -/
+theorem C06_collection_ignores_abandoned_mark (ops : List Op) (stale marks order : List Addr) :
+    final (ops ++ [.markAbort stale, .collect marks order]) = final (ops ++ [.collect marks order]) := by
+  unfold final; rw [run_append, run_append]; rfl
+
+/-- **C06, exactly once although a mark phase was abandoned just before teardown** — the former territory of the finding,
+    now a theorem: under the hypotheses of `C06_exactly_once_windows`, for any bits `stale` left set by a mark phase that
+    an exception left, teardown empties the registry and every allocated object has exactly one `fin` then one `free`. -/
+theorem C06_exactly_once_after_abandoned_mark (ops : List Op) (stale order : List Addr) (h : WellFormed ops)
+    (hnd : NoDtor ops) (hlost : (ghost ops).lost = []) (hraw : (ghost ops).rawLive = [])
+    (hroots : ∀ e ∈ (final ops).reg, e.root = false) :
+    (final (ops ++ [.markAbort stale, .teardown order])).reg = [] ∧
+    ∀ a ∈ (ghost ops).allocd, Once a (final (ops ++ [.markAbort stale, .teardown order])).log := by
+  rw [C06_teardown_ignores_abandoned_mark]
+  exact C06_exactly_once_windows ops order h hnd hlost hraw hroots
+
+/-- the witness of the former finding (corpus/life_fixed_stale_marks.ops): object 1 is held while a mark phase marks it
+    and is left by an exception; the program drops it.  It meets every hypothesis of the theorem above, and in the code
+    that exists it is finalised exactly once — by the next collection, or by teardown. -/
+example :
+    let ops : List Op := [.new 1 .std [] [1] [], .markAbort [1]]
+    WellFormed ops ∧ NoDtor ops ∧ (ghost ops).lost = [] ∧ (ghost ops).rawLive = [] ∧
+      (∀ e ∈ (final ops).reg, e.root = false) ∧ (final ops).marked = [1] ∧
+      (final (ops ++ [.teardown []])).log = [.fin 1, .free 1] ∧
+      (final (ops ++ [.collect [] []])).log = [.fin 1, .free 1] := by
+  decide
+
+/-- **OLD (before fix d8f0c4f, `Cfg.staleMarks`): the same history leaves object 1 behind.**  The next collection keeps it
+    although nothing reaches it (its stale bit is read as a mark), and when teardown comes first the object is never
+    finalised and stays registered in a collector that no longer exists: "none is left behind at teardown" fails. -/
+theorem C06_stale_marks_old_refuted :
+    let ops : List Op := [.new 1 .std [] [1] [], .markAbort [1]]
+    WellFormed ops ∧
+      (run Cfg.staleMarks St.init (ops ++ [.teardown []])).log = [] ∧
+      (run Cfg.staleMarks St.init (ops ++ [.teardown []])).reg = [⟨1, false⟩] ∧
+      (run Cfg.staleMarks St.init (ops ++ [.collect [] []])).log = [] ∧
+      ¬ Once 1 (run Cfg.staleMarks St.init (ops ++ [.teardown []])).log := by
+  refine ⟨by decide, by decide, by decide, by decide, ?_⟩
+  have hlog : (run Cfg.staleMarks St.init ([.new 1 .std [] [1] [], .markAbort [1]] ++ [Op.teardown []])).log = [] := by decide
+  rw [hlog]
+  exact Once.not_nil
+
+/-- each half of the fix is needed for its own route: without `GC_Unmark` in `GC_Del` teardown leaves the object behind;
+    without it in `GC_Mark` the next collection keeps the garbage (teardown then still reclaims it) -/
+theorem C06_stale_marks_halves_refuted :
+    let ops : List Op := [.new 1 .std [] [1] [], .markAbort [1]]
+    (run { Cfg.current with teardownUnmarks := false } St.init (ops ++ [.teardown []])).log = [] ∧
+    (run { Cfg.current with teardownUnmarks := false } St.init (ops ++ [.collect [] []])).log = [.fin 1, .free 1] ∧
+    (run { Cfg.current with markClearsFirst := false } St.init (ops ++ [.collect [] []])).log = [] ∧
+    (run { Cfg.current with markClearsFirst := false } St.init (ops ++ [.collect [] [], .teardown []])).log = [.fin 1, .free 1] := by
+  decide
+
+/-! ### fix d3e4e44: `del(NULL)` (the NULL guard of `GC_Rem_Ptr`)
+
+  `Op.delNull` = the program's `del(NULL)`; `Op.nulldel a` = the destructor of `a` issues `del(NULL)` when it runs.
+  `GC_Rem_Ptr` returns at once; `GC_Rem` still recomputes `mitems`.  Before the fix the loop over the pending list
+  compared NULL with every slot, and while a sweep is releasing objects the slots already processed *are* NULL: the
+  first one matched and `dealloc(destruct(NULL))` ran inside the collector (`St.ub`; known finding KF-C17-null-del-sweep
+  seen from C06: the process dies in the middle of a sweep, everything still pending is never finalised).
+  Both operations are part of the history language of every theorem above, with no hypothesis. -/
+
+/-- **C06, the collector never runs a destructor on NULL** — every history, no hypothesis (not even well-formedness):
+    whatever the program and its destructors `del`, NULL included, during sweeps, nested collections and teardown. -/
+theorem C06_no_null_deref (ops : List Op) : (final ops).ub = false := by
+  unfold final; rw [run_ub (c := Cfg.current) rfl]; rfl
+
+/-- `del(NULL)` by the program changes nothing but the collection threshold (`GC_Rem` recomputes `mitems`; when the
+    collector is stopped not even that) -/
+theorem C06_del_null_touches_threshold_only (s : St) : ∃ m, step Cfg.current s .delNull = { s with mitems := m } := by
+  by_cases hr : s.running = true
+  · refine ⟨threshold s.reg.length, ?_⟩
+    show gcRemNull Cfg.current s = _
+    unfold gcRemNull; simp [hr, Cfg.current]
+  · refine ⟨s.mitems, ?_⟩
+    show gcRemNull Cfg.current s = _
+    have hn : (!s.running) = true := by simpa using hr
+    unfold gcRemNull; rw [if_pos hn]
+
+/-- the witness of the former finding (corpus/life_fixed_null_del.ops): a Box 2 → 1 whose members' destructors also do
+    `del(NULL)`, swept owner first and owned first, plus a `del(NULL)` by the program: the history meets the hypotheses of
+    `C06_exactly_once` and the ledger is the one of the same history without any `del(NULL)`. -/
+example :
+    let ops : List Op := [.new 1 .std [] [1] [], .nulldel 1, .new 2 .std [1] [1, 2] [], .nulldel 2, .delNull,
+                          .new 3 .std [] [1, 2, 3] [], .nulldel 3, .collect [3] [2, 1]]
+    WellFormed ops ∧ NoDtor ops ∧ (∀ op ∈ ops, op ≠ Op.stop) ∧ (ghost ops).rawLive = [] ∧
+      (∀ e ∈ (final ops).reg, e.root = false) ∧
+      (final ops).log = [.fin 2, .fin 1, .free 1, .free 2] ∧
+      (final (ops ++ [Op.teardown []])).log = [.fin 2, .fin 1, .free 1, .free 2, .fin 3, .free 3] ∧
+      (final (ops ++ [Op.teardown []])).ub = false := by
+  decide
+
+/-- **OLD (before fix d3e4e44, `Cfg.nullUnguarded`): `del(NULL)` from a destructor during a sweep is undefined
+    behaviour.**  A single object whose destructor does `del(NULL)`, left to a collection: the sweep clears its pending slot
+    and runs the destructor; `GC_Rem_Ptr(NULL)` matches that cleared slot and calls `dealloc(destruct(NULL))`.  Outside a
+    sweep (explicit `del` of the object, `del(NULL)` by the program) the old code was harmless too. -/
+theorem C06_del_null_old_refuted :
+    let ops : List Op := [.new 1 .std [] [1] [], .nulldel 1]
+    WellFormed ops ∧
+      (run Cfg.nullUnguarded St.init (ops ++ [.collect [] []])).ub = true ∧
+      (run Cfg.nullUnguarded St.init (ops ++ [.teardown []])).ub = true ∧
+      (run Cfg.nullUnguarded St.init (ops ++ [.delNull, .del 1 .std])).ub = false ∧
+      (final (ops ++ [.collect [] []])).ub = false ∧ (final (ops ++ [.collect [] []])).log = [.fin 1, .free 1] := by
+  decide
+
+/-- the owner-first arrangement: Box 2 → 1, only the *owned* object's destructor does `del(NULL)`; when the owner is swept
+    first its cleared slot is what the NULL matches (OLD), while 1 is finalised from inside the owner's destructor -/
+theorem C06_del_null_old_owner_first_refuted :
+    let ops : List Op := [.new 1 .std [] [1] [], .nulldel 1, .new 2 .std [1] [1, 2] [], .collect [] [2, 1]]
+    (run Cfg.nullUnguarded St.init ops).ub = true ∧ (final ops).ub = false ∧
+      (final ops).log = [.fin 2, .fin 1, .free 1, .free 2] := by
   decide
 
 /-! ### known finding KF-C06-dtor-alloc: a destructor that allocates
